@@ -85,6 +85,19 @@ LISTS = [
      "expansion factors of the fuse regime, by shard size class"),
 ]
 
+# statements that select a behaviour: (lean name, file, regex with one group capturing the statement
+# text, {statement text: Lean Bool literal}, doc).  Any other statement text (or a number of matches
+# different from one) is an extraction error: the model has no counterpart for it.
+CHOICES = [
+    # the first statement of `if shard.is_empty() { … }` in the worker loop of `par_solve`; the
+    # negative lookahead keeps the match inside the body of `par_solve`
+    ("parEmptyShardContinues", "src/func/vbuilder.rs",
+     r"fn par_solve\b(?:(?!\n    fn ).)*?if shard\.is_empty\(\) \{\s*([^;{}]*?)\s*;",
+     {"continue": "true", "return": "false"},
+     "what a `par_solve` worker does when it receives an empty shard: `continue;` (true: it goes on "
+     "to the next shard) or `return;` (false: the worker thread ends, defect D31)"),
+]
+
 
 def main():
     out = ["/-! GENERATED by tools/extract_consts.py from /repo's current source — do not edit.",
@@ -137,6 +150,18 @@ def main():
         out.append(f"/-- {doc} (`{f}`), numerators over `{name}Den` -/")
         out.append(f"def {name}Nums : List Nat := {nums}")
         out.append(f"def {name}Den : Nat := {den}")
+    for name, f, rx, table, doc in CHOICES:
+        src = open(os.path.join(REPO, f)).read()
+        ms = re.findall(rx, src, flags=re.S)
+        if len(ms) != 1:
+            bad.append((name, f, len(ms), 1))
+            continue
+        stmt = " ".join(ms[0].split())
+        if stmt not in table:
+            bad.append((name, f, f"unexpected statement `{stmt}`", "one of " + "/".join(sorted(table))))
+            continue
+        out.append(f"/-- {doc} (`{f}`) -/")
+        out.append(f"def {name} : Bool := {table[stmt]}")
     # RankSmall table from the rank_small! macro arms
     src = open(os.path.join(REPO, "src/rank_sel/rank_small.rs")).read()
     arms = re.findall(r"\((\d) ; \$bits: expr\) => \{\s*\$crate::prelude::RankSmall::<(\d+), (\d+), _, _, _>::new", src)
